@@ -891,6 +891,13 @@ def check_bonferroni(ctx):
         pder -= idx_vars
         sorted_loop = _sorted_enumeration(meth, pder)
         is_holm = sorted_loop is not None
+        # a method that ranks the p-values is the step-down procedure,
+        # whatever the shape of its loop
+        ranks_p = any(isinstance(n, ast.Call) and call_name(n) in (
+            'argsort', 'sort', 'sorted', 'rankdata') and any(
+                V.mentions(a, pder | {pname}) for a in n.args)
+            for n in walk_local(meth.node))
+        is_holm = is_holm or ranks_p
         # vectorised Holm: the p-values compared are `p[argsort(p)]`
         argsorted = {n.targets[0].id for n in walk_local(meth.node)
                      if isinstance(n, ast.Assign) and isinstance(
@@ -998,6 +1005,36 @@ def check_bonferroni(ctx):
                          lambda e, lonly=lonly: V.mentions(e, lonly),
                          oracle, what)
         if is_holm and sorted_loop is None:
+            # an enumeration of the p-values whose index feeds a level is a
+            # rank loop: it has to run over the SORTED p-values
+            for loop in walk_local(meth.node):
+                if isinstance(loop, ast.For) and isinstance(
+                        loop.iter, ast.Call) and call_name(loop.iter) == \
+                        'enumerate' and loop.iter.args and V.mentions(
+                            loop.iter.args[0], pder | {pname}) and \
+                        isinstance(loop.target, ast.Tuple) and isinstance(
+                            loop.target.elts[0], ast.Name):
+                    ivar = loop.target.elts[0].id
+                    ldefs = {n.targets[0].id: n.value for n in ast.walk(loop)
+                             if isinstance(n, ast.Assign) and isinstance(
+                                 n.targets[0], ast.Name)}
+
+                    def uses_index(expr, ivar=ivar, ldefs=ldefs, depth=0):
+                        return any(isinstance(n, ast.Name) and (
+                            n.id == ivar or (n.id in ldefs and depth < 3 and
+                                             uses_index(ldefs[n.id], ivar,
+                                                        ldefs, depth + 1)))
+                                   for n in ast.walk(expr))
+                    if any(isinstance(n, ast.BinOp) and isinstance(
+                            n.op, ast.Div) and V.mentions(n.left, {lname})
+                           and uses_index(n.right) for n in ast.walk(loop)):
+                        ctx.violated(
+                            'LEVEL-LIN', meth,
+                            f'rank loop over {txt(loop.iter.args[0])[:50]}: '
+                            f'not the sorted p-values', at=meth.where(loop),
+                            detail='the level of a bin depends on the '
+                                   'position of the bin in the array '
+                                   'instead of the rank of its p-value')
             _check_holm_level_vector(ctx, program, meth, lname)
             _check_unsort(ctx, meth, pname)
         elif is_holm:
@@ -1124,6 +1161,13 @@ def _sorted_enumeration(meth, pder):
             if isinstance(seq, ast.Subscript) and isinstance(
                     seq.slice, ast.Name) and seq.slice.id in argsorts:
                 sorted_by = seq.slice.id
+            elif (isinstance(seq, ast.Call) and call_name(seq) == 'argsort'
+                  and seq.args and V.mentions(seq.args[0], pder)) or (
+                      isinstance(seq, ast.Name) and seq.id in argsorts and
+                      V.mentions(argsorts[seq.id], pder)):
+                # the enumeration runs over the sorting permutation itself:
+                # the value variable is the POSITION of the bin of that rank
+                sorted_by = ''
             elif isinstance(seq, ast.Call) and call_name(seq) in ('sort',
                                                                   'sorted'):
                 sorted_by = ''
@@ -1189,6 +1233,13 @@ def _check_holm_level_vector(ctx, program, meth, lname):
 def _check_holm_level(ctx, meth, sorted_loop, pname, lname, pder):
     loop, ivar, pvar, sorted_by, start, seq = sorted_loop
     defs = {}
+    # locals of the method bound once (`ntests = p.size` before the loop)
+    once = {}
+    for node in walk_local(meth.node):
+        if isinstance(node, ast.Assign) and len(node.targets) == 1 and \
+                isinstance(node.targets[0], ast.Name):
+            once.setdefault(node.targets[0].id, []).append(node.value)
+    defs.update({k: v[0] for k, v in once.items() if len(v) == 1})
     for node in ast.walk(loop):
         if isinstance(node, ast.Assign) and isinstance(node.targets[0],
                                                        ast.Name):
@@ -1210,6 +1261,9 @@ def _check_holm_level(ctx, meth, sorted_loop, pname, lname, pder):
         def sym(expr):
             if isinstance(expr, ast.Name) and expr.id == ivar:
                 return 'i'
+            if isinstance(expr, ast.Name) and expr.id in defs and \
+                    expr.id not in (ivar, pvar):
+                return sym(defs[expr.id])
             if isinstance(expr, ast.Attribute) and expr.attr == 'size' and \
                     V.mentions(expr.value, pder):
                 return 'm'
@@ -1246,16 +1300,41 @@ def _check_unsort(ctx, meth, pname):
             argsorts[node.targets[0].id] = txt(node.value.args[0])
     sorted_inds = {n for n, a in argsorts.items() if a not in argsorts}
     inverse = {n for n, a in argsorts.items() if a in argsorts}
+    # element-wise form: `for [rank,] pos in [enumerate(]argsort(p)[)]`, the
+    # position variable runs over the sorting permutation
+    for node in walk_local(meth.node):
+        if not isinstance(node, ast.For):
+            continue
+        seq, tgt = node.iter, node.target
+        if isinstance(seq, ast.Call) and call_name(seq) == 'enumerate' and \
+                seq.args and isinstance(tgt, ast.Tuple) and len(
+                    tgt.elts) == 2:
+            seq, tgt = seq.args[0], tgt.elts[1]
+        if isinstance(tgt, ast.Name) and (
+                (isinstance(seq, ast.Call) and call_name(seq) == 'argsort'
+                 and seq.args and txt(seq.args[0]) not in argsorts) or
+                (isinstance(seq, ast.Name) and seq.id in sorted_inds)):
+            sorted_inds = sorted_inds | {tgt.id}
     n = 0
     for ret in _returns(meth):
         elts = ret.value.elts if isinstance(ret.value, ast.Tuple) else \
             [ret.value]
+        if isinstance(ret.value, ast.Call) and isinstance(
+                ret.value.func, ast.Name) and ret.value.func.id[:1].isupper() \
+                and len(ret.value.args) + len(ret.value.keywords) >= 2:
+            # a value class (named tuple) holding the arrays
+            elts = list(ret.value.args) + [k.value
+                                           for k in ret.value.keywords]
         for elt in elts:
             n += 1
             reshaped = isinstance(elt, ast.Call) and call_name(elt) == \
                 'reshape' and elt.args and txt(elt.args[0]) == \
                 f'{pname}.shape'
             inner = receiver(elt) if reshaped else elt
+            while isinstance(inner, ast.Call) and call_name(inner) in (
+                    'array', 'asarray') and len(inner.args) == 1 and \
+                    isinstance(inner.args[0], ast.Name):
+                inner = inner.args[0]
             ok = None
             why = ''
             if isinstance(inner, ast.Subscript) and isinstance(
